@@ -390,8 +390,12 @@ impl CGen {
 }
 
 pub fn compile_obs(tx: &tir::Tx, mainnet: bool, cost_models: bool) -> Value {
+    compile_obs_with(tx, mainnet, if cost_models { &[0, 1, 2] } else { &[] })
+}
+
+pub fn compile_obs_with(tx: &tir::Tx, mainnet: bool, versions: &[u8]) -> Value {
     let r = guarded(|| {
-        let pp = store::pparams(mainnet, 44, 155_381, 4310, cost_models);
+        let pp = store::pparams_with(mainnet, 44, 155_381, 4310, versions);
         let mut c = store::compiler(pp, Some(0));
         c.compile(&AnyTir::V1Beta0(tx.clone()))
     });
@@ -449,10 +453,14 @@ fn rebuild_sets(tx: &tir::Tx) -> tir::Tx {
 }
 
 pub fn case(tx: &tir::Tx, mainnet: bool, cost_models: bool) -> Value {
-    let obs = compile_obs(tx, mainnet, cost_models);
+    case_with(tx, mainnet, if cost_models { &[0, 1, 2] } else { &[] })
+}
+
+pub fn case_with(tx: &tir::Tx, mainnet: bool, cost_models: &[u8]) -> Value {
+    let obs = compile_obs_with(tx, mainnet, cost_models);
     // compiling the same reduced template again (its sets held in fresh hash tables) must give
     // the same bytes
-    let again = (0..4).all(|_| compile_obs(&rebuild_sets(tx), mainnet, cost_models) == obs);
+    let again = (0..4).all(|_| compile_obs_with(&rebuild_sets(tx), mainnet, cost_models) == obs);
     let again = if again { obs.clone() } else { Value::Null };
     json!({"tx": tx_json(tx), "mainnet": mainnet, "cost_models": cost_models, "obs": obs, "same_again": obs == again})
 }
@@ -570,10 +578,17 @@ pub fn run(opts: &Opts, out: &mut Emitter, prop: &str) {
         };
         let t = g.tx();
         let mainnet = g.r.chance(1, 3);
-        let cm = !(prop == "C14" && g.r.chance(1, 6));
+        // the cost models the parameters hold: usually all three, sometimes none, sometimes only some versions
+        let cm: Vec<u8> = match g.r.below(10) {
+            0 => vec![],
+            1 => vec![2],
+            2 => vec![0, 1],
+            3 => vec![*g.r.pick(&[0u8, 1, 2])],
+            _ => vec![0, 1, 2],
+        };
         out.case(
             if g.malformed { "random-malformed" } else if g.boundary { "random-boundary" } else { "random" },
-            || case(&t, mainnet, cm),
+            || case_with(&t, mainnet, &cm),
         );
     }
 }
